@@ -83,4 +83,6 @@ RMin(a, b) == IF ~CmpOk(a, b) THEN Bad(a, b) ELSE IF RLt(a, b) THEN a ELSE b
 
 \* integer scaling helpers
 RScale(k, a) == RMul(RI(k), a)
+\* 100 * n / d for integers, d # 0 (OVF where the product would leave 32 bits: a 10^8 spike)
+Pct(n, d) == IF CanMul(100, n) THEN Norm(100 * n, d) ELSE OVF
 =============================================================================
